@@ -8,6 +8,7 @@
 //!                                         valid one, "S" = does not parse, "R" = parses as s-expressions but is refused ...)
 //!           "btexts":{kind:kbd text},     the same valid contents with every reload-request action replaced by a
 //!                                         neutral custom action (lane B, "no reload was requested")
+//!           "aux":{name:content},         auxiliary files the contents refer to (zippychord dictionary), optional
 //!           "start":[kind..],             initial content of file 0..n-1 (file 0 is what kanata starts with);
 //!                                         besides the keys of texts: "missing" (no such file), "unreadable" (a directory)
 //!           "script":[step..],            ["d"|"u",code]  ["t"] | ["t",n] (n loop iterations)  ["w",file index,kind]
@@ -22,6 +23,8 @@
 //!            iteration of that reload and fed with the rest of the script (everything A's new layout sees); it is
 //!            shown (= compared) from the step after the first iteration at which no physical key is held and both
 //!            A's and its own loop would block (can_block = true); before that only {"on":false,"run":true,"cb":b}.
+//!   The lanes are run one after the other, each from scratch, in this process: the zippychord state and MAPPED_KEYS
+//!   are process-global and every Kanata::new_from_str reconfigures them, so two instances must never be alive together.
 //!   That a reload took place is decided by ground truth (the layout object of A was replaced), not by A's messages.
 //!
 //! Output: {"e":"reset","job":id,"script":0,"params":..} then one line per step
@@ -53,6 +56,9 @@ struct Files {
     paths: Vec<PathBuf>,
     state: Vec<String>,
     texts: HashMap<String, String>,
+    /// auxiliary files the contents refer to (e.g. a zippychord dictionary): name -> content; written next to the
+    /// configuration files and given to new_from_str as its file set
+    aux: Vec<(String, String)>,
 }
 
 impl Files {
@@ -70,6 +76,16 @@ impl Files {
             paths: (0..n).map(|i| dir.join(format!("f{i}.kbd"))).collect(),
             state: vec!["missing".to_string(); n],
             texts: t,
+            aux: vec![],
+        }
+    }
+    fn set_aux(&mut self, aux: &Value) {
+        if let Some(m) = aux.as_object() {
+            for (k, v) in m {
+                let c = v.as_str().unwrap_or("").to_string();
+                std::fs::write(self.dir.join(k), &c).expect("aux file");
+                self.aux.push((k.clone(), c));
+            }
         }
     }
     fn is_valid(&self, kind: &str) -> bool {
@@ -120,8 +136,8 @@ fn layers_ptr(k: &Kanata) -> usize {
 }
 
 impl Lane {
-    fn new(text: &str, paths: &[PathBuf], idx: usize) -> Result<Lane, String> {
-        let mut sim = Sim::new(text, &[])?;
+    fn new(text: &str, aux: &[(String, String)], paths: &[PathBuf], idx: usize) -> Result<Lane, String> {
+        let mut sim = Sim::new(text, aux)?;
         sim.k.cfg_paths = paths.to_vec();
         sim.k.cur_cfg_idx = idx;
         let (tx, rx) = sync_channel::<ServerMessage>(1000);
@@ -255,6 +271,7 @@ fn run_lane(
         }
         files.set_all(file_state)?;
         let paths = files.paths.clone();
+        let aux = files.aux.clone();
         let mut run = LaneRun {
             obs: vec![],
             repls: vec![],
@@ -262,7 +279,7 @@ fn run_lane(
             failure: None,
         };
         let r = std::panic::catch_unwind(std::panic::AssertUnwindSafe(|| -> Result<bool, String> {
-            let mut lane = Lane::new(text, &paths, idx)?;
+            let mut lane = Lane::new(text, &aux, &paths, idx)?;
             for (si, st) in steps.iter().enumerate().skip(from) {
                 match st {
                     Step::Write(i, kind) => {
@@ -322,6 +339,7 @@ fn run_case(names: &KeyNames, case: &Value, scratch: &Path, w: &mut dyn Write) -
     let steps = expand(case["script"].as_array().ok_or("script")?)?;
     let lanes = case.get("lanes").and_then(|v| v.as_bool()).unwrap_or(true);
     let mut files = Files::new(scratch, start.len(), &case["texts"]);
+    files.set_aux(&case["aux"]);
     let text_o = files.texts.get(&start[0]).ok_or("file 0 must start with a valid content")?.clone();
     // physical keys held after each step
     let mut phys: Vec<usize> = vec![];
@@ -500,6 +518,7 @@ pub fn cmd_kinds(args: &[String]) -> i32 {
     let case: Value = serde_json::from_reader(std::fs::File::open(&args[0]).expect("case file")).expect("case json");
     let scratch = PathBuf::from(&args[2]).join(format!("files_{}", std::process::id()));
     let mut files = Files::new(&scratch, 1, &case["texts"]);
+    files.set_aux(&case["aux"]);
     let mut kinds: Vec<String> = files.texts.keys().cloned().collect();
     kinds.push("missing".into());
     kinds.push("unreadable".into());
@@ -529,6 +548,8 @@ pub fn cmd_edges(args: &[String]) -> i32 {
         .map(|x| x.as_str().unwrap_or("").to_string())
         .collect();
     let mut files = Files::new(&scratch, start.len(), &case["texts"]);
+    files.set_aux(&case["aux"]);
+    let aux = files.aux.clone();
     let text_o = files.texts.get(&start[0]).expect("valid start content").clone();
     install_panic_hook();
     let (mut total, mut nmis, mut panics, mut slips) = (0u64, 0u64, 0u64, 0u64);
@@ -562,7 +583,7 @@ pub fn cmd_edges(args: &[String]) -> i32 {
             }
             let paths = files.paths.clone();
             let r = std::panic::catch_unwind(std::panic::AssertUnwindSafe(|| -> Result<Option<Value>, String> {
-                let mut lane = Lane::new(&text_o, &paths, 0)?;
+                let mut lane = Lane::new(&text_o, &aux, &paths, 0)?;
                 let mut last = json!({});
                 for st in &steps {
                     match st {
